@@ -65,8 +65,10 @@ def run(ctx):
                 "only (WTAlgebraTrace.tla); twin-dataset scenarios on real "
                 "models (masked values and padded times overwritten by 7.5 / 1e30 / NaN / inf, 0-2 extra padded visits, 25 % missing "
                 "entries incl. partially observed visits) must give equal attachment terms, sufficient statistics, counts, "
-                "initial and fitted parameters (memory phase included), trajectories at real visits, personalizations, and a "
-                "noise level equal to the RMSE over observed entries. Distinct = distinct vector / scenario.")
+                "initial and fitted parameters (memory phase included), trajectories at real visits, personalizations, an attachment "
+                "equal to the sum of the entry-wise Gaussian / Bernoulli terms over observed entries, and a noise level equal to the RMSE "
+                "over observed entries - the latter also at every iteration, in and after the memory-less phase, of recorded fits with "
+                "entries missing inside visits. Distinct = distinct vector / scenario.")
     ctx.assumptions = ["bit-identical when padding is unchanged; relative 1e-5 (personalization 1e-2 absolute) when the amount of padding differs"]
     tmp = os.path.join(ctx.tmp, "mk")
     os.makedirs(tmp, exist_ok=True)
@@ -115,11 +117,31 @@ def run(ctx):
     ctx.sample({k: v for k, v in scen[0].items() if k not in ("v", "w", "c")})
     if not ok:
         for r in scen:
-            bad_flags = [k for k, v in r.items() if k.endswith(("_equal", "_rmse", "_finite")) and v is False]
+            bad_flags = [k for k, v in r.items() if k.endswith(("_equal", "_rmse", "_finite", "_sum")) and v is False]
             if r["status"] != "ok" or bad_flags:
                 ctx.violation({"check": "scenario", "kind": r["kind"], "failed": (bad_flags or [r["status"][:30]])[0]},
                               f"masked / padded entries influence results of {r['kind']} (fill {r['fill']}, extra padding {r['extra_pad']}): "
                               f"{bad_flags or r['status']}", replay={k: v for k, v in r.items() if k not in ("v", "w", "c")})
+    # the noise level over observed entries only, at every iteration of real fits with entries missing inside visits, in and
+    # after the memory-less phase (the recorder of C04 / C05: closed form on the statistics in force and the DATA mask)
+    from ..drivers import saem
+    for kind in (["logistic_diag_src1", "logistic_scalar_src1"] if q else ["logistic_diag_src1", "logistic_scalar_src1", "linear_diag_src1", "joint_src1"]):
+        events, vars_, params = [], None, None
+        for i, c in enumerate([dict(n=6, burn=("count", 2), pw=(4, 5), rnd=True, missing=0.3), dict(n=5, burn=("count", 0), pw=(1, 1), rnd=False, missing=0.4)]):
+            w = os.path.join(ctx.tmp, f"w6_{kind}_{i}")
+            os.makedirs(w, exist_ok=True)
+            evs, info = saem.run_config(kind, c, seed=ctx.seed + i, workdir=w)
+            events += evs
+            if info.get("vars"):
+                vars_, params = info["vars"], info["params_names"]
+            ctx.case(key=("fit_noise", kind, i))
+        okf, k, _ = saem.validate(events, vars_, params, os.path.join(ctx.tmp, "tr6"), f"C06_{kind}", closed_forms=True)
+        ctx.traces += 2
+        ctx.log(f"{kind}: noise level over observed entries at every iteration of 2 fits with missing entries -> {'conforms' if okf else f'REJECTED at event {k}'}")
+        if not okf:
+            e = events[k]
+            ctx.violation({"check": "fit_noise", "kind": kind, "event_op": e["op"]},
+                          f"fit of {kind} with missing entries: {e.get('noise_rule', e)}", replay={"event": e})
     # binding self-test
     import copy
     bad = copy.deepcopy(recs[77])
